@@ -1231,6 +1231,8 @@ impl CommandExecutor for DrawExecutor {
                     1 => self.terminal_resolution = TerminalResolution::Medium,
                     _ => return Err(anyhow::anyhow!("SetResolution unknown/unsupported argument: {}", parameters[0])),
                 }
+                let res = self.get_resolution();
+                self.screen.resize((res.width * res.height) as usize, 1);
                 match parameters[1] {
                     0 => { // no change
                     }
@@ -1244,8 +1246,6 @@ impl CommandExecutor for DrawExecutor {
                     }
                     _ => return Err(anyhow::anyhow!("SetResolution unknown/unsupported argument: {}", parameters[1])),
                 }
-                let res = self.get_resolution();
-                self.screen.resize((res.width * res.height) as usize, 1);
 
                 Ok(CallbackAction::NoUpdate)
             }
